@@ -13,6 +13,9 @@ CONSTANTS BloomIds,       \* e.g. two receipt blooms and a block bloom
           AddrIds, ValIds,\* abstract addresses / indexed values ("e" is concretized as the empty byte string)
           MaxPos,         \* indexed positions 0..MaxPos
           Kinds,          \* serialization round trips: "compress", "bytes", "logbytes", "json", "rlp"
+          Prefill,        \* BOOLEAN: histories start with one item added to the block bloom and one to a receipt bloom
+          Reads,          \* BOOLEAN: FALSE switches the read-only queries off (generator configurations that spend their
+                          \* depth on mutate / serialize / mutate / serialize histories)
           MaxOps,
           Proj(_)
 HashBits == 3
@@ -44,7 +47,18 @@ Rec(op, b, b2, a, vs, item, kind, res) ==
 NoItem == [t |-> "", a |-> "", p |-> 0, v |-> ""]
 Log(r) == hist' = Append(hist, r @@ [blooms |-> Proj(added'), nbits |-> HashBits])
 
-Init == /\ bits = [b \in BloomIds |-> {}] /\ added = [b \in BloomIds |-> {}] /\ hist = <<>>
+\* with Prefill the first two calls are fixed (AddAddressOfLog on the block bloom, AddIndexedOfLog on one receipt bloom), so
+\* that short generated histories have something to merge
+P1 == Addr(CHOOSE x \in AddrIds : TRUE)
+P2 == Idx(0, CHOOSE x \in ValIds : TRUE)
+R0 == CHOOSE r \in BloomIds : r # Block
+Ad1 == [b \in BloomIds |-> IF b = Block THEN {P1} ELSE {}]
+Ad2 == [b \in BloomIds |-> IF b = Block THEN {P1} ELSE IF b = R0 THEN {P2} ELSE {}]
+Init == IF Prefill
+        THEN /\ added = Ad2 /\ bits = [b \in BloomIds |-> BitsOfAll(Ad2[b])]
+             /\ hist = <<Rec("additem", Block, "", "", <<>>, P1, "", TRUE) @@ [blooms |-> Proj(Ad1), nbits |-> HashBits],
+                          Rec("additem", R0, "", "", <<>>, P2, "", TRUE) @@ [blooms |-> Proj(Ad2), nbits |-> HashBits]>>
+        ELSE /\ bits = [b \in BloomIds |-> {}] /\ added = [b \in BloomIds |-> {}] /\ hist = <<>>
 
 AddItems(b, S) == /\ bits' = [bits EXCEPT ![b] = @ \cup BitsOfAll(S)]
                   /\ added' = [added EXCEPT ![b] = @ \cup S]
@@ -71,6 +85,12 @@ MergeNil(b) ==                                          \* b.Merge(nil)
 Roundtrip(b, kind) ==                                   \* b := decode(encode(b)); must be Equal to the old one
   /\ UNCHANGED <<bits, added>>
   /\ Log(Rec("roundtrip", b, "", "", <<>>, NoItem, kind, TRUE))
+\* Serialization as an OBSERVATION of one object (CompressedBytes / Bytes / LogBytes / MarshalJSON / RLP encoding): the
+\* object is kept and may be serialized again after later mutations; what is decoded from the returned bytes must be
+\* the CURRENT content of the bloom, never an earlier one (no stale cached serialization).  item = what was serialized.
+Serialize(b, kind) ==
+  /\ UNCHANGED <<bits, added>>
+  /\ Log(Rec("serialize", b, "", "", <<>>, NoItem, kind, TRUE) @@ [ser |-> {[item |-> i, pre |-> Pre(i)] : i \in added[b]}])
 \* res = TRUE: Contain must answer TRUE.  res = FALSE: a TRUE answer is a false positive (allowed)
 Contain(b, b2) ==                                       \* b.Contain(b2)
   /\ UNCHANGED <<bits, added>>
@@ -87,11 +107,12 @@ Next == \/ Can /\ \E b \in BloomIds, a \in AddrIds, vs \in Logs : AddLog(b, a, v
         \/ Can /\ \E b \in BloomIds, i \in Items : AddItem(b, i)
         \/ Can /\ \E b, b2 \in BloomIds : Merge(b, b2)
         \/ Can /\ Collect
-        \/ Can /\ \E b \in BloomIds : MergeNil(b)
+        \/ Can /\ Reads /\ \E b \in BloomIds : MergeNil(b)
         \/ Can /\ \E b \in BloomIds, k \in Kinds : Roundtrip(b, k)
-        \/ Can /\ \E b, b2 \in BloomIds : Contain(b, b2)
-        \/ Can /\ \E b \in BloomIds, i \in Items : Query(b, i)
-        \/ Can /\ \E b \in BloomIds, a \in AddrIds, vs \in Logs : QueryLog(b, a, vs)
+        \/ Can /\ \E b \in BloomIds, k \in Kinds : Serialize(b, k)
+        \/ Can /\ Reads /\ \E b, b2 \in BloomIds : Contain(b, b2)
+        \/ Can /\ Reads /\ \E b \in BloomIds, i \in Items : Query(b, i)
+        \/ Can /\ Reads /\ \E b \in BloomIds, a \in AddrIds, vs \in Logs : QueryLog(b, a, vs)
 Spec == Init /\ [][Next]_vars
 
 ----------------------------------------------------------------------------
@@ -115,5 +136,8 @@ MergeKeeps ==
 \* the block's bloom covers everything any of its receipts logged
 CollectCovers ==
   [][(Stepped /\ Last.op = "collect") => \A r \in BloomIds : added[r] \subseteq added'[Block] /\ BitsOfAll(added[r]) \subseteq bits'[Block]]_vars
+\* a serialization always describes the current bit set of the object, whatever was serialized before
+NoStaleSerialization ==
+  [][(Stepped /\ Last.op = "serialize") => BitsOfAll({x.item : x \in Last.ser}) = bits[Last.b]]_vars
 Monotone == [][\A b \in BloomIds : bits[b] \subseteq bits'[b]]_vars
 =============================================================================
